@@ -11,7 +11,14 @@ CommunicationError (fault injection) or cut power.
 import nfc.clf
 
 
+class TooManyCommands(BaseException):
+    """the reader exceeded the command budget the harness set (the way a
+    harness turns an endless command loop into an observable event)"""
+
+
 class SimBase(object):
+    max_cmds = None
+
     def __init__(self):
         self.ncmd = 0            # commands received
         self.log = []            # (kind, addr) of every command executed
@@ -23,6 +30,8 @@ class SimBase(object):
 
     def exchange(self, cmd, timeout):
         self.ncmd += 1
+        if self.max_cmds is not None and self.ncmd > self.max_cmds:
+            raise TooManyCommands()
         if self.gone:
             raise nfc.clf.TimeoutError("tag gone")
         drop = None
